@@ -65,20 +65,24 @@ func (s *RefreshableFileDataSource) Initialize() error {
 		return nil
 	}
 
-	err := s.doReadAndUpdate()
-	if err != nil {
-		logging.Error(err, "Fail to execute RefreshableFileDataSource.doReadAndUpdate")
-	}
-
+	// The watch is registered before the first read: a write that lands between a read and the
+	// registration of the watch is announced by no event, and the source would keep serving the
+	// old content until somebody touches the file again.
 	w, err := fsnotify.NewWatcher()
 	if err != nil {
 		return errors.Errorf("Fail to new a watcher instance of fsnotify, err: %+v", err)
 	}
 	err = w.Add(s.sourceFilePath)
 	if err != nil {
+		_ = w.Close()
 		return errors.Errorf("Fail add a watcher on file[%s], err: %+v", s.sourceFilePath, err)
 	}
 	s.watcher = w
+
+	err = s.doReadAndUpdate()
+	if err != nil {
+		logging.Error(err, "Fail to execute RefreshableFileDataSource.doReadAndUpdate")
+	}
 
 	go util.RunWithRecover(func() {
 		defer s.watcher.Close()
